@@ -43,6 +43,7 @@ var c12Lengths = []int{0, 1, 3, 4, 5, 7, 8, 9, 11, 12, 13, 16, 100, 255, 256, 25
 	4095, 4096, 4097, 8191, 8192, 8193, 16384, 32768, 65491, 65499, 65500, 65507, 65535, 65536, 65537, 100000, 131072}
 
 type c12state struct {
+	handlerKept [][]byte // the very slices the handler was handed
 	r          *Run
 	kind, mode string
 	sentC2S    [][]byte // complete, consistent messages sent towards the service
@@ -90,6 +91,8 @@ func (st *c12state) explain(set [][]byte, m []byte) string {
 
 func (st *c12state) echoHandler(ctx context.Context, request []byte, next core.NextIOHandler) ([]byte, error) {
 	st.handlerSaw = append(st.handlerSaw, append([]byte(nil), request...))
+	// a handler may keep what it was handed (a log, an audit queue): the slice itself is remembered too
+	st.handlerKept = append(st.handlerKept, request)
 	st.r.Sim.Event("handler-saw", len(request))
 	st.nextResp++
 	resp := payload(100000+st.nextResp, st.respLen())
@@ -98,7 +101,11 @@ func (st *c12state) echoHandler(ctx context.Context, request []byte, next core.N
 }
 
 func (st *c12state) checkHandler() bool {
-	for _, m := range st.handlerSaw {
+	for i, m := range st.handlerSaw {
+		if i < len(st.handlerKept) && !bytes.Equal(st.handlerKept[i], m) {
+			st.r.Fail("C12:request-bytes-changed-after-the-handler-returned:"+st.mode+":"+st.kind, "request %d: the slice handed to the service's IO handler held %s when the handler ran and reads %s now: the transport reused its buffer", i+1, describeBytes(m), describeBytes(st.handlerKept[i]))
+			return false
+		}
 		if !st.in(st.sentC2S, m) {
 			st.r.Fail("C12:handler-saw-"+st.explain(st.sentC2S, m)+":"+st.mode+":"+st.kind, "the service's IO handler was handed %s, which is not one of the %d messages sent", describeBytes(m), len(st.sentC2S))
 			return false
